@@ -175,3 +175,9 @@ func vh_C16_L5_rack_state_independent_of_tsn_base() {
 	vcover("end")
 }
 func vh_C16_L4_close_across_the_wrap() { vh_C14_L1_close_after_data_and_reuse() }
+
+// C16.L4 (continued): Karn's rule and the once-per-round-trip gate at any TSN (= C19.L4, whose
+// TSN base is symbolic), and the stream reset with its request sequence number at the wrap
+// (= C14.L1).
+func vh_C16_L4_karn_at_any_tsn()                  { vh_C19_L4_karn() }
+func vh_C16_L4_reset_request_number_at_the_wrap() { vh_C14_L1_close_after_data_and_reuse() }
